@@ -65,11 +65,11 @@ for d in sorted(glob.glob("/verif/seeded/C*-*"), key=key):
                         if mm and mm.group(1) not in rules: rules.append(mm.group(1))
                     rule = ", ".join(rules[:3])
     nn = int(name.split("-")[1])
-    rnd = "1" if nn <= 3 else ("2" if nn <= 6 else "3")
+    rnd = "1" if nn <= 3 else ("2" if nn <= 6 else ("3" if nn <= 9 else "4"))
     fl = FIRST_LOOK.get(name, "" if rnd == "1" else "not recorded")
     if det: caught += 1
     else: missed += 1
     rows.append(f"| {name} | {rnd} | {first} | {', '.join(det) if det else '**missed**'} | {rule} | {fl} |")
 print(f"{caught + missed} seeds: {caught} caught, {missed} missed\n")
-print("| seed | round | change | caught by (now) | rule | first look (rounds 2, 3) |\n|---|---|---|---|---|---|")
+print("| seed | round | change | caught by (now) | rule | first look (rounds 2–4) |\n|---|---|---|---|---|---|")
 print("\n".join(rows))
